@@ -447,6 +447,29 @@ Theorem C13_M_do_energy_lam2_refuted :
 Proof. exact do_energy_lam2_refuted. Qed.
 Print Assumptions C13_M_do_energy_lam2_refuted.
 
+(* ... and correct in the repaired text (variant true, /repo fcf383d; which variant the tree has is read from the source on
+   every run by props/xint.py): every direction stores the energy of its own flux density component, and the energy is
+   positive for every non-zero flux density *)
+Theorem C13_M_do_energy_lam1_repaired : forall (m : im_mat) muo b1 b2, im_lamtype m = 1%nat ->
+  im_do_energy RA true m muo b1 b2
+  = (b1 * b1 / ((1 + im_lamfill m * (im_mux m - 1)) * muo)
+     + b2 * b2 * (im_lamfill m / (im_muy m * muo) + (1 - im_lamfill m) / muo)) / 2.
+Proof. exact do_energy_lam1_repaired. Qed.
+Print Assumptions C13_M_do_energy_lam1_repaired.
+
+Theorem C13_M_do_energy_lam2_repaired : forall (m : im_mat) muo b1 b2, im_lamtype m = 2%nat ->
+  im_do_energy RA true m muo b1 b2
+  = (b1 * b1 * (im_lamfill m / (im_mux m * muo) + (1 - im_lamfill m) / muo)
+     + b2 * b2 / ((1 + im_lamfill m * (im_muy m - 1)) * muo)) / 2.
+Proof. exact do_energy_lam2_repaired. Qed.
+Print Assumptions C13_M_do_energy_lam2_repaired.
+
+Theorem C13_M_do_energy_repaired_positive : forall (m : im_mat) muo b1 b2,
+  (im_lamtype m <= 2)%nat -> 0 < muo -> 1 <= im_mux m -> 1 <= im_muy m -> 0 < im_lamfill m <= 1 -> (b1, b2) <> (0, 0) ->
+  0 < im_do_energy RA true m muo b1 b2.
+Proof. exact do_energy_repaired_positive. Qed.
+Print Assumptions C13_M_do_energy_repaired_positive.
+
 (* non-vacuity: a unit square of air with J = 1 A/m^2, A = 0 on the boundary and the centre node at the potential
    that solves its nodal equation (four elements, mu0 := 1): all hypotheses of W = 1/2 int A.J hold, W = 1/72 *)
 Example C13_M_example_hypotheses_hold :
